@@ -703,10 +703,10 @@ func discharge(o *Obligation, timeoutS int) {
 	if o.Cover || res.Status == "unsat" || res.Status == "sat" || len(o.splitConds) == 0 {
 		return
 	}
-	// undecided: case split on (up to five of) the function's branch conditions; every case must be unsat
+	// undecided: case split on (up to three of) the function's branch conditions; every case must be unsat
 	conds := o.splitConds
-	if len(conds) > 5 {
-		conds = conds[:5]
+	if len(conds) > 3 {
+		conds = conds[:3]
 	}
 	n := 1 << len(conds)
 	total := res.Secs
@@ -715,7 +715,7 @@ func discharge(o *Obligation, timeoutS int) {
 	}
 	results := make([]SolveResult, n)
 	var wg sync.WaitGroup
-	sem := make(chan struct{}, 4)
+	sem := make(chan struct{}, 8)
 	for m := 0; m < n; m++ {
 		wg.Add(1)
 		go func(m int) {
